@@ -186,6 +186,9 @@ def fam_timeout(seed, i):
     main, handles = setup_main(rng, cfg, kinds, True)
     sc["clients"]["main"] = main
     w = {"send": 5, "call": 7, "yield": 1, "sleep": 1, "stop": 0.5, "join": 0.5, "ping": 1}
+    if rng.random() < 0.12:
+        sc["starve"] = ["a1"]          # a backlog behind the slow (timed-out) invocation
+        w = {"send": 8, "call": 2}
     scripts = [[]] + [[eff("sleep", d)] for d in range(1, 7)] + [[Y, eff("sleep", 2)], [eff("sleep", 1), eff("sleep", 2)], [eff("sleep", 5), Y]]
     cnt = [0]
     for c in names:
